@@ -68,9 +68,9 @@ end
 /-- the string encoding of a map key: JSON object keys are strings; serde_json prints integer,
     bool-free scalar keys as their decimal text -/
 def keyJson (k : Str) : List JVal :=
-  -- a key `k` can stand for the string `k`, or for the integer it spells
+  -- a key `k` can stand for the string `k`, or for the integer whose canonical decimal text it is
   [JVal.str k] ++ (match (String.ofList k).toInt? with
-    | some i => [JVal.int i]
+    | some i => if (toString i).toList = k then [JVal.int i] else []
     | none => [])
 
 mutual
